@@ -235,13 +235,11 @@ func runC18(c *mon.Ctx) {
 		pts[fmt.Sprintf("random%d", i)] = new(big.Int).Add(big.NewInt(256), randBig(rngz, new(big.Int).Sub(r, big.NewInt(256))))
 	}
 	var coeffCache = map[int][]*big.Int{}
-	j := 0
-	for name, z := range pts {
-		j++
+	for j, name := range sortedKeys(pts) {
 		if !c.Mine(j) {
 			continue
 		}
-		name, z := name, z
+		name, z := name, pts[name]
 		c.Case("barycentric/"+name, func() {
 			b := pw.ComputeBarycentricCoefficients(FrFromBig(z))
 			want := ref.LagrangeAt(z)
